@@ -4,6 +4,7 @@ From Coq Require Import List Arith Bool.
 From LokyV Require Import Lib.LedgerLib Lib.PoolLib Gen.Ledger Gen.Pool Model.Pool Proofs.PoolThm.
 From LokyV Require Model.KillLock Proofs.KillLockThm Lib.WorkerLib Gen.Worker Proofs.WorkerThm.
 From LokyV Require Model.Wake Proofs.WakeThm.
+From LokyV Require Model.FailLoop Proofs.FailLoopThm.
 Import ListNotations.
 
 (* whatever happened before (a graceful shutdown included), shutdown(kill_workers=True) sets both flags *)
@@ -69,3 +70,26 @@ Example C06_recheck_without_forgetting_the_ids :
              [Wake.Mgr; Wake.SubmitBegin; Wake.SubStep; Wake.SubStep; Wake.SubStep; Wake.ShutdownKill; Wake.Mgr; Wake.Mgr; Wake.Mgr; Wake.Mgr] Wake.ws0 in
   Wake.ph s = Wake.MCrashed.
 Proof. vm_compute. reflexivity. Qed.
+
+(* ---- failing the table (Model/FailLoop.v; finding H14, fixed) ----
+   the kill_workers branch of flag_executor_shutting_down(): `while pending_work_items: popitem(); set_exception(ShutdownExecutorError)`.
+   A future still waiting in the table can be cancelled by its owner at any moment, also between two iterations, and
+   Future.set_exception() raises InvalidStateError on a cancelled future.  How the loop guards the call is read off the source
+   (forced_path_fail_guard).  For every table and every interleaving of cancellations with the loop: the error never escapes (the
+   manager thread survives), when the loop has ended every item has an outcome (failed by the manager, or cancelled by its owner) and
+   none was lost, and it ends after one step per item plus one.  On the pinned source the call was bare: one cancelled future killed
+   the manager thread, the items after it were never failed, the workers neither killed nor joined (real reproduction
+   findings/H14_real.py). *)
+Theorem C06_failing_the_table_never_kills_the_manager :
+  forall table es, let s := FailLoop.run forced_path_fail_guard es (FailLoop.start table) in
+    FailLoop.lphase s <> FailLoop.Crashed /\
+    (FailLoop.lphase s = FailLoop.Finished ->
+       FailLoop.todo s = [] /\ forallb FailLoop.terminal (FailLoop.handled s) = true /\ length (FailLoop.handled s) = length table) /\
+    (length table < FailLoop.mgr_steps es -> FailLoop.lphase s = FailLoop.Finished).
+Proof. exact FailLoopThm.guarded_loop_never_crashes. Qed.
+Print Assumptions C06_failing_the_table_never_kills_the_manager.
+
+Example C06_h14_bare_call :
+  let s := FailLoop.run NoGuard [FailLoop.Cancel 1; FailLoop.Mgr; FailLoop.Mgr] (FailLoop.start [FailLoop.Waiting; FailLoop.Waiting; FailLoop.Waiting]) in
+  FailLoop.lphase s = FailLoop.Crashed /\ FailLoop.todo s = [FailLoop.Cancelled; FailLoop.Waiting].
+Proof. vm_compute. split; reflexivity. Qed.
